@@ -590,6 +590,11 @@ func (l *IPFSLog) Join(otherLog iface.IPFSLog, size int) (iface.IPFSLog, error) 
 		if _, ok := l.Next.Get(e.GetHash().String()); ok {
 			mergedHeads[idx] = nil
 		}
+
+		// entries of another log are never merged, so they cannot be heads
+		if e.GetLogID() != l.ID {
+			mergedHeads[idx] = nil
+		}
 	}
 
 	l.heads = entry.NewOrderedMapFromEntries(mergedHeads)
